@@ -3,7 +3,7 @@ import collections, os, re
 
 from .. import bee, configs, oracles, run
 from ..lex import cfamily
-from ..universe import cgen, progsets
+from ..universe import cgen, langunits, progsets
 
 LEVEL = "model_checking"
 
@@ -32,6 +32,17 @@ def enabled(case, R):
         elif k.startswith("mod_") and k in on:
             del on[k]
     return on
+
+
+def self_toks(dump):
+    """uncrustify's own raw tokeniser (languages the independent lexer does not cover)"""
+    out = []
+    for kind, txt in oracles.self_tokens(dump):
+        if kind in ("DIR(", "DIR)"):
+            out.append(kind)
+        else:
+            out.append(kind + (txt.decode("latin-1") if isinstance(txt, bytes) else txt))
+    return out
 
 
 def tokens(data, lang):
@@ -63,8 +74,15 @@ def judge(case, r):
         return []
     R = bee.reg()
     lang = case["lang"]
-    a, oka = tokens(case["src"], lang)
-    b, okb = tokens(r.out, lang)
+    if lang in oracles.INDEP_LANGS:
+        a, oka = tokens(case["src"], lang)
+        b, okb = tokens(r.out, lang)
+    else:
+        a = self_toks(r.hook.get("tokens"))
+        r2 = run.unc(r.out, None, lang, hooks=("tokens",))
+        b = self_toks(r2.hook.get("tokens"))
+        oka = bool(a) and (bool(b) or not r.out.strip())
+        okb = True
     if not oka:
         return []
     on = enabled(case, R)
@@ -89,6 +107,17 @@ def judge(case, r):
     sa, sb = strip(a), strip(b)
     if permute:
         sa, sb = sorted(sa), sorted(sb)
+    if sa != sb and "mod_sort_incl_import_grouping_enabled" in on and permute:
+        # the grouping sort also drops exact duplicates of include/import lines; is that ALL that happened?
+        src2 = without_duplicate_imports(case["src"], r.out)
+        if src2 is not None:
+            if lang in oracles.INDEP_LANGS:
+                a2 = tokens(src2, lang)[0]
+            else:
+                a2 = self_toks(run.unc(src2, None, lang, hooks=("tokens",)).hook.get("tokens"))
+            if sorted(strip(a2)) == sb:
+                out.append({"clause": "duplicate-import-line-removed-by-grouping-sort", "enabled": ",".join(sorted(on))})
+                sa = sb
     if sa != sb:
         i = oracles.first_diff(sa, sb)
         ca, cb = collections.Counter(abstract(t) for t in sa), collections.Counter(abstract(t) for t in sb)
@@ -108,6 +137,31 @@ def judge(case, r):
         w["lang"] = lang
         w["ctx"] = case["meta"].get("ctx", "")
     return out
+
+
+IMPORT_LINE = re.compile(rb"^(#\s*(include|import)\b|import\b|using\b)")
+
+
+def without_duplicate_imports(src, out):
+    """src minus those include/import/using lines that the output has fewer of while keeping at least one copy; None if there
+    is no such line"""
+    def norm(l):
+        return b" ".join(l.split())
+    li = src.split(b"\n")
+    ci = collections.Counter(norm(l) for l in li if IMPORT_LINE.match(l.strip()))
+    co = collections.Counter(norm(l) for l in out.split(b"\n") if IMPORT_LINE.match(l.strip()))
+    rem = ci - co
+    rem = {k: v for k, v in rem.items() if co.get(k, 0) >= 1}
+    if not rem:
+        return None
+    keep = []
+    for l in li:
+        k = norm(l)
+        if IMPORT_LINE.match(l.strip()) and rem.get(k, 0) > 0:
+            rem[k] -= 1
+            continue
+        keep.append(l)
+    return b"\n".join(keep)
 
 
 def abstract(t):
@@ -137,6 +191,20 @@ def nlsp_family(name):
     return name.startswith(("nl_", "sp_")) and not configs.is_modifying(name)
 
 
+PRIMED = {
+    "sort-on": {"mod_sort_include": "true", "mod_sort_import": "true", "mod_sort_using": "true", "mod_sort_oc_properties": "true"},
+    "sort-group": {"mod_sort_include": "true", "mod_sort_import": "true", "mod_sort_incl_import_grouping_enabled": "true"},
+    "brace-add": {"mod_full_brace_if": "add", "mod_full_brace_for": "add", "mod_full_brace_while": "add", "mod_full_brace_do": "add",
+                  "mod_full_brace_using": "add"},
+    "brace-remove": {"mod_full_brace_if": "remove", "mod_full_brace_for": "remove", "mod_full_brace_while": "remove",
+                     "mod_full_brace_do": "remove", "mod_full_brace_using": "remove"},
+    "int-add": {"mod_int_long": "add", "mod_long_int": "add", "mod_int_short": "add", "mod_short_int": "add",
+                "mod_int_unsigned": "add", "mod_unsigned_int": "add", "mod_int_signed": "add", "mod_signed_int": "add"},
+    "closebrace-comments": {"mod_add_long_function_closebrace_comment": "1", "mod_add_long_switch_closebrace_comment": "1",
+                            "mod_add_long_namespace_closebrace_comment": "1", "mod_add_long_class_closebrace_comment": "1",
+                            "mod_add_long_ifdef_endif_comment": "1", "mod_add_long_ifdef_else_comment": "1"},
+}
+
 UNITS = ("decl:returns", "decl:semis", "decl:longints", "decl:intspell", "decl:enum", "decl:infinite", "decl:boolexpr", "decl:ternary",
          "decl:funcs", "decl:goto", "pp:includes", "pp:if-inside", "pp:if-brace", "pp:define-stmt", "pp:define-multi")
 
@@ -148,7 +216,8 @@ def check(ctx):
     dl = ctx.deadline - 25
 
     def G(prog, lang, bname, base, fam1=None, fam2=None, k=0):
-        groups.append(bee.Group("C04", prog[0], prog[1], lang, bname, base, judge, fam1, fam2, k, meta=prog[2], deadline=dl))
+        groups.append(bee.Group("C04", prog[0], prog[1], lang, bname, base, judge, fam1, fam2, k, meta=prog[2], deadline=dl,
+                                hooks=() if lang in oracles.INDEP_LANGS else ("tokens",)))
 
     f1 = progsets.stmt_funcs(1, styles=("kr", "one", "ml", "ml2"))
     f2 = progsets.stmt_funcs(2, styles=("kr",))
@@ -170,6 +239,20 @@ def check(ctx):
             G(pr, "C", "defaults", {}, mod_family, nlsp_family, 2)
     for pr in [u for u in progsets.units("CPP") if u[0] in ("decl:class", "decl:trycatch", "decl:enumclass", "decl:rangefor", "decl:lambda", "decl:ns", "decl:returns", "decl:enum")]:
         G(pr, "CPP", "defaults", {}, mod_family, None, 1)
+    # language-specific options (import/using sorting, using() braces, Pawn semicolons, OC property sorting) and the constructs the
+    # secondary options need; then the same sweeps from PRIMED bases, in which a primary option is already on, so that the
+    # secondary ones (sort keys, weights, prefer-int-on-left, force-c-comment, brace_nl) have something to act on
+    lang_units = [(lg, u) for lg in langunits.UNITS for u in langunits.units(lg)]
+    for lg, pr in lang_units:
+        G(pr, lg, "defaults", {}, mod_family, None, 1)
+        if not quick:
+            G(pr, lg, "defaults", {}, mod_family, mod_family, 2)
+    prim_units = lang_units + [("C", u) for u in units if u[0] in ("pp:includes", "decl:intspell", "decl:longints", "pp:if-inside")]
+    for bn, base in PRIMED.items():
+        for lg, pr in prim_units:
+            G(pr, lg, bn, base, mod_family, None, 1)
+        for pr in (p1[::16] if quick else p1[::2]):
+            G(pr, "C", bn, base, mod_family, None, 1)
     # profiles as they are (k=0): mod options of the shipped styles
     for pn, p in P.items():
         for pr in (p2[::8] if quick else p2[::2]) + units:
@@ -198,10 +281,14 @@ def check(ctx):
         "samples": samples or [{"note": "none"}], "groups": agg["groups"],
         "single_deviations_pruned_by_read_set": agg["pruned"], "refused_runs": agg["refused"], "timeouts": agg["timeouts"],
         "distinct_outcomes": agg["outcomes"], "k_completed": 2,
+        "mod_options_total": len([n for n in bee.reg() if n.startswith("mod_")]),
+        "mod_options_fired": {k: v for k, v in sorted(agg["fired"].items()) if k.startswith("mod_")},
+        "mod_options_never_fired": sorted(n for n in bee.reg() if n.startswith("mod_") and not agg["fired"].get(n)),
     }
     return {"level": LEVEL, "coverage": cov,
             "assumptions": ["permitted-token table per option written from the option descriptions (PERMIT in mc/props/c04.py)",
-                            "C/C++ only (independent lexer); other languages' mod_ options (Pawn semicolons, Java/C#/D sorting) not covered"]}
+                            "C, C++, Objective-C and Java are judged with the independent lexer; C#, D, Vala and Pawn units with uncrustify's own raw tokeniser "
+                            "applied to input and output (a token lost by the tokeniser itself in both would not show; C02 covers that)"]}
 
 
 def replay(path):
